@@ -54,6 +54,9 @@ RTOL = 1e-12
 _REF = None
 
 
+PSEUDO_NUMBERS = ["inf", "nan", "infinity", "Infinity", "NaN", "INF", "1_0", "1_000", "\uff11\uff12", "\u0661\u0662"]
+
+
 def init_worker():
     global _REF
     _REF = units_ref.load()
@@ -415,6 +418,12 @@ def run_shard(desc):
             c = _atom_case("insert", text, base, e)
             c["tags"] += why
             _run(sh, c, sample=(n == 7 and desc[1] == 0))
+        if desc[1] == 0:
+            # words that Python's float() would take for a number but that are neither a table symbol nor a number in
+            # the documented literal syntax: every string containing one must be rejected
+            for tok in PSEUDO_NUMBERS:
+                for tpl in ("%s", "%s*m", "m*%s", "kg/%s", "(%s)*m", "%s/s", "m2*%s*s-1"):
+                    _run(sh, dict(sub="insert", text=tpl % tok, expect=None, tags=["pseudo-number"]))
     elif kind == "sweep":
         names = sorted(_REF.spellings)
         for n, t in enumerate(names[desc[1]::desc[2]]):
